@@ -447,7 +447,30 @@ XPathProcessorImpl::tokenize(const XalanDOMString&  pat)
         
         default:
             {
-                if(XalanDOMString::npos == startSubstring)
+                if(XalanDOMString::npos == startSubstring &&
+                   c == XalanUnicode::charFullStop &&
+                   (i + 1 >= nChars ||
+                    XalanXMLChar::isDigit(pat[i + 1]) == false))
+                {
+                    // '.' and '..' are tokens of their own (the abbreviated
+                    // steps): a '.' that starts neither a number nor sits
+                    // inside a name does not open a name token, so ".div 2"
+                    // and "..-1" are '.' 'div' '2' and '..' '-' '1'.
+                    if (i + 1 < nChars &&
+                        pat[i + 1] == XalanUnicode::charFullStop)
+                    {
+                        substring(pat, theToken, i, i + 2);
+
+                        ++i;
+                    }
+                    else
+                    {
+                        substring(pat, theToken, i, i + 1);
+                    }
+
+                    addToTokenQueue(theToken);
+                }
+                else if(XalanDOMString::npos == startSubstring)
                 {
                     startSubstring = i;
 
